@@ -15,10 +15,10 @@ non-weakly — transitively (least fixpoint).
 * `worklist_*`         : small-step semantics of the work list with the test-and-set
   (`AtomicTake`) guard: every schedule terminates with exactly the `Reach` files processed, each
   exactly once.
-* Position independence: `Reach` mentions the command-line order only through `firstDef` (which
-  file defines a name FIRST); where an archive sits relative to the objects that reference it is
-  not an input of the closure at all. (The correspondence additionally moves archives around on
-  real link lines and checks that wild's loaded set does not change.)
+* `reach_perm` / `reach_perm_iff`: position independence — any reordering of the command line
+  that keeps each file's content and the relative order of the definers of every name (so that
+  `firstDef` commutes with the reordering) loads exactly the same files. (The correspondence
+  additionally moves archives around on real link lines.)
 -/
 namespace Wild.Link
 
@@ -438,5 +438,95 @@ theorem wstep_measure (fs : List File) (s : WState) (p : Nat) (h : WInv fs s) (h
   have hpos : 0 < s.pending.length := List.length_pos_of_mem hp
   simp only [wmeasure, wstep, List.length_append] at hb ⊢
   omega
+
+/-! ## Position independence -/
+
+theorem mem_requestsOf (fs : List File) (i d : Nat) :
+    d ∈ requestsOf fs i ↔ ∃ f n, fs[i]? = some f ∧ n ∈ f.strongUndefs ∧ firstDef fs n = some d ∧
+      d ≠ i ∧ ¬ (f.dynamic = true ∧ (fs[d]?.map (·.dynamic)).getD false = true) := by
+  unfold requestsOf
+  cases hf : fs[i]? with
+  | none => simp
+  | some f =>
+    simp only [List.mem_filterMap]
+    constructor
+    · rintro ⟨n, hn, h⟩
+      cases hfd : firstDef fs n with
+      | none => simp [hfd] at h
+      | some d' =>
+        simp only [hfd] at h
+        split at h
+        · rename_i hc
+          injection h with h; subst h
+          simp only [Bool.and_eq_true, bne_iff_ne, ne_eq, Bool.not_eq_true', Bool.and_eq_false_iff] at hc
+          refine ⟨f, n, rfl, hn, hfd, hc.1, ?_⟩
+          rintro ⟨h1, h2⟩
+          rcases hc.2 with h3 | h3 <;> simp_all
+        · cases h
+    · rintro ⟨f', n, hf', hn, hfd, hne, hnd⟩
+      injection hf' with hf'; subst hf'
+      refine ⟨n, hn, ?_⟩
+      simp only [hfd]
+      have : (d != i && !(f.dynamic && (fs[d]?.map (·.dynamic)).getD false)) = true := by
+        simp only [Bool.and_eq_true, bne_iff_ne, ne_eq, Bool.not_eq_true', Bool.and_eq_false_iff]
+        refine ⟨hne, ?_⟩
+        by_cases h1 : f.dynamic = true
+        · right
+          by_cases h2 : (fs[d]?.map (·.dynamic)).getD false = true
+          · exact absurd ⟨h1, h2⟩ hnd
+          · simpa using h2
+        · left; simpa using h1
+      rw [if_pos this]
+
+
+/-- **C03 (position independence).** Reorder the command line by any index map `π` that keeps
+every file's content (`hfile`) and commutes with "first definer of a name" (`hfirst`) — i.e. moves
+archives anywhere relative to the objects that reference them while keeping the relative order of
+the definers of each name. Then the loaded set is the same set of files. -/
+theorem reach_perm (fs fs' : List File) (π : Nat → Nat)
+    (hfile : ∀ i f, fs[i]? = some f → fs'[π i]? = some f)
+    (hfirst : ∀ n, firstDef fs' n = (firstDef fs n).map π)
+    (hinj : ∀ i j, i < fs.length → j < fs.length → π i = π j → i = j)
+    (i : Nat) (h : Reach fs i) : Reach fs' (π i) := by
+  induction h with
+  | mandatory i f hf ho => exact Reach.mandatory (π i) f (hfile i f hf) ho
+  | request i d hi hreq hlt ih =>
+    obtain ⟨f, n, hf, hn, hfd, hne, hnd⟩ := (mem_requestsOf fs i d).1 hreq
+    have hfd' : fs[d]? = some fs[d] := List.getElem?_eq_getElem hlt
+    have hd' := hfile d fs[d] hfd'
+    have hlt' : π d < fs'.length := (List.getElem?_eq_some_iff.1 hd').1
+    apply Reach.request (π i) (π d) ih _ hlt'
+    apply (mem_requestsOf fs' (π i) (π d)).2
+    refine ⟨f, n, hfile i f hf, hn, ?_, ?_, ?_⟩
+    · rw [hfirst, hfd]; rfl
+    · intro heq
+      apply hne
+      exact hinj d i hlt (List.getElem?_eq_some_iff.1 hf).1 heq
+    · rw [hd']
+      rw [hfd'] at hnd
+      exact hnd
+
+/-- With an inverse reordering the statement is an equivalence: exactly the same files load. -/
+theorem reach_perm_iff (fs fs' : List File) (π σ : Nat → Nat)
+    (hfile : ∀ i f, fs[i]? = some f → fs'[π i]? = some f)
+    (hfile' : ∀ i f, fs'[i]? = some f → fs[σ i]? = some f)
+    (hfirst : ∀ n, firstDef fs' n = (firstDef fs n).map π)
+    (hfirst' : ∀ n, firstDef fs n = (firstDef fs' n).map σ)
+    (hinj : ∀ i j, i < fs.length → j < fs.length → π i = π j → i = j)
+    (hinj' : ∀ i j, i < fs'.length → j < fs'.length → σ i = σ j → i = j)
+    (hσπ : ∀ i, i < fs.length → σ (π i) = i)
+    (i : Nat) (hi : i < fs.length) : Reach fs' (π i) ↔ Reach fs i := by
+  constructor
+  · intro h
+    have := reach_perm fs' fs σ hfile' hfirst' hinj' (π i) h
+    rw [hσπ i hi] at this
+    exact this
+  · exact reach_perm fs fs' π hfile hfirst hinj i
+
+/-- Non-vacuity: `main.o liba.a(member)` versus `liba.a(member) main.o`. -/
+example :
+    let m : File := { dynamic := false, optional := false, entries := [.undef 0 false] }
+    let a : File := { dynamic := false, optional := true, entries := [.defn 0 .strong false] }
+    isLoaded [m, a] 1 = true ∧ isLoaded [a, m] 0 = true := by decide
 
 end Wild.Link
